@@ -71,6 +71,12 @@ def script(mode, k, n, autoprove):
          "from builtins import exit" if False else "",
          "import builtins",
          "if not hasattr(builtins, 'exit'): site.setquit()"]
+    if n > 50:
+        # large trace: a loop instead of n source lines (only used with mode "end")
+        L.append("for i in range(%d):" % n)
+        L.append("    x = PrivVal(i + 2) * PubVal(i + 3)")
+        L.append("open('executed', 'a').write('s' * %d)" % n)
+        return "\n".join(L) + "\n"
     for i in range(n + 1):
         if i == k and term is not None:
             L.append(term)
@@ -151,9 +157,11 @@ def run_case(case, tmp):
         elif backend == "zkinterface":
             for f, kinds in (("computation.zkif", ["CircuitHeader", "Witness", "ConstraintSystem"]), ("circuit.zkif", ["CircuitHeader", "ConstraintSystem"])):
                 msgs = fbreader.read_file(rd(f))
-                if [m[0] for m in msgs] != kinds:
-                    return "%s: %s has messages %r" % (tag, f, [m[0] for m in msgs]), "incomplete-artefact"
-                ncons = len([m for m in msgs if m[0] == "ConstraintSystem"][0][1]["constraints"])
+                got = [m[0] for m in msgs]
+                ncs = got.count("ConstraintSystem")
+                if ncs < 1 or got != kinds[:-1] + ["ConstraintSystem"] * ncs:
+                    return "%s: %s has messages %r" % (tag, f, got), "incomplete-artefact"
+                ncons = sum(len(m[1]["constraints"]) for m in msgs if m[0] == "ConstraintSystem")
                 if ncons != nexec:
                     return "%s: %s holds %d constraints, %d statements were executed" % (tag, f, ncons, nexec), "incomplete-artefact"
         else:
@@ -217,6 +225,10 @@ def run(ctx):
         grid = [(3, [0, 1, 3])]
     else:
         grid = [(n, list(range(n + 1))) for n in range(1, 7)]
+    # completeness for large traces (size-dependent writers): normal end, autoprove on
+    for n in ([1001] if ctx.tier == "quick" else [1001, 2501]):
+        for backend in BACKENDS:
+            cases.append({"mode": "end", "k": n, "n": n, "backend": backend, "autoprove": True})
     for n, ks in grid:
         for mode, k, backend, ap in itertools.product(MODES, ks, BACKENDS, [True, False]):
             if MODES[mode][0] is None and k != n:
